@@ -292,6 +292,11 @@ class CallMixin:
             if rk is None:
                 raise OutOfReach(f'contract of {fi.fid} has neither functional clause nor result kind')
             result = ctx.fresh_val('res_' + fi.node.name, rk)
+        if isinstance(result, VSeq) and result.elem_kind and result.elem_kind[0] == 'ref' and fi.node.returns is not None \
+                and 'list[' in ast.unparse(fi.node.returns) and 'Optional' not in ast.unparse(fi.node.returns):
+            # typing: a function annotated list[C] returns objects, not None (same policy as for specification functions)
+            result.elems_nonnull = True         # used where the list is iterated (no quantified axiom: the term may contain quantifiers)
+            ctx.assumptions.add(f'typing: the elements of the list returned by {fi.qualname} (annotated {ast.unparse(fi.node.returns)}) are objects (not None)')
         env2 = dict(env)
         env2['result'] = result
         if ctx.generic_depth == 0 and fi.fid not in ctx.applying and ctx.spec_mode == 0:
